@@ -10,6 +10,7 @@ import (
 	"encoding/json"
 	"errors"
 	"fmt"
+	"io/ioutil"
 	"path/filepath"
 	"strings"
 	"sync"
@@ -42,7 +43,10 @@ type Case struct {
 	Holds     []sched.Hold `json:"holds,omitempty"`
 	Perturb   int          `json:"perturb"`
 	SchedSeed uint64       `json:"sched_seed"`
-	Limit     int          `json:"limit,omitempty"` // > 0: callers run under a concurrency limiter of this size
+	Limit     int          `json:"limit,omitempty"`     // > 0: callers run under a concurrency limiter of this size
+	Funcs     int          `json:"funcs,omitempty"`     // 2: a second Func on the same batch context, same shard values
+	MaxSize2  int          `json:"max_size2,omitempty"` // its MaxSize
+	FuncOf    []int        `json:"func_of,omitempty"`   // Func called by caller i (cycled)
 	Origin    string       `json:"origin,omitempty"`
 }
 
@@ -51,6 +55,7 @@ func fOf(arg int) int { return arg*31 + 7 }
 var errUser = errors.New("user")
 
 type manyCall struct {
+	fid     int
 	k       int
 	args    []int
 	outcome string
@@ -73,6 +78,20 @@ type exec struct {
 	cancel []context.CancelFunc
 	fired  []bool
 	seen   map[string]int
+}
+
+func (c *Case) funcOf(arg int) int {
+	if c.Funcs < 2 || len(c.FuncOf) == 0 {
+		return 0
+	}
+	return c.FuncOf[arg%len(c.FuncOf)] % 2
+}
+
+func (c *Case) maxSizeOf(fid int) int {
+	if fid == 1 {
+		return c.MaxSize2
+	}
+	return c.MaxSize
 }
 
 func (c *Case) shardOf(arg int) int {
@@ -133,49 +152,53 @@ func runCase(c *Case) (*exec, bool) {
 			e.free.Events = append(e.free.Events, sched.Event{Seq: len(e.free.Events), G: -1, Point: "h.cancel", Args: []interface{}{cs.Caller}})
 		}
 	}
-	f := &batch.Func{
-		MaxSize:      c.MaxSize,
-		WaitInterval: time.Duration(c.WaitUs) * time.Microsecond,
-		MaxDuration:  time.Duration(c.MaxDurUs) * time.Microsecond,
-	}
-	if !c.NilShard {
-		f.Shard = func(arg interface{}) interface{} { return c.shardOf(arg.(int)) }
-	}
-	f.Many = func(ctx context.Context, args []interface{}) ([]interface{}, error) {
-		k := int(atomic.AddInt32(&e.nMany, 1)) - 1
-		ints := make([]int, len(args))
-		for i, a := range args {
-			ints[i], _ = a.(int)
+	mkFunc := func(fid int) *batch.Func {
+		f := &batch.Func{
+			MaxSize:      c.maxSizeOf(fid),
+			WaitInterval: time.Duration(c.WaitUs) * time.Microsecond,
+			MaxDuration:  time.Duration(c.MaxDurUs) * time.Microsecond,
 		}
-		out := "ok"
-		if len(c.Outcomes) > 0 {
-			out = c.Outcomes[k%len(c.Outcomes)]
+		if !c.NilShard {
+			f.Shard = func(arg interface{}) interface{} { return c.shardOf(arg.(int)) }
 		}
-		mc := &manyCall{k: k, args: ints, outcome: out}
-		e.mu.Lock()
-		e.many = append(e.many, mc)
-		e.mu.Unlock()
-		e.free.Handler("h.many", k)
-		rs := make([]interface{}, len(ints))
-		for i, a := range ints {
-			rs[i] = fOf(a)
-		}
-		switch out {
-		case "slow":
-			time.Sleep(300 * time.Microsecond)
-		case "err":
-			return nil, errUser
-		case "panic":
-			panic("boom")
-		case "short":
-			if len(rs) > 0 {
-				rs = rs[:len(rs)-1]
+		f.Many = func(ctx context.Context, args []interface{}) ([]interface{}, error) {
+			k := int(atomic.AddInt32(&e.nMany, 1)) - 1
+			ints := make([]int, len(args))
+			for i, a := range args {
+				ints[i], _ = a.(int)
 			}
-		case "long":
-			rs = append(rs, 0)
+			out := "ok"
+			if len(c.Outcomes) > 0 {
+				out = c.Outcomes[k%len(c.Outcomes)]
+			}
+			mc := &manyCall{fid: fid, k: k, args: ints, outcome: out}
+			e.mu.Lock()
+			e.many = append(e.many, mc)
+			e.mu.Unlock()
+			e.free.Handler("h.many", k)
+			rs := make([]interface{}, len(ints))
+			for i, a := range ints {
+				rs[i] = fOf(a)
+			}
+			switch out {
+			case "slow":
+				time.Sleep(300 * time.Microsecond)
+			case "err":
+				return nil, errUser
+			case "panic":
+				panic("boom")
+			case "short":
+				if len(rs) > 0 {
+					rs = rs[:len(rs)-1]
+				}
+			case "long":
+				rs = append(rs, 0)
+			}
+			return rs, nil
 		}
-		return rs, nil
+		return f
 	}
+	fs := []*batch.Func{mkFunc(0), mkFunc(1)}
 
 	verifhook.Set(e.free.Handler)
 	var wg sync.WaitGroup
@@ -202,7 +225,7 @@ func runCase(c *Case) (*exec, bool) {
 					}
 				}()
 				e.free.Handler("h.invoke", i)
-				v, err := f.Invoke(ctx, i)
+				v, err := fs[c.funcOf(i)].Invoke(ctx, i)
 				r.val, r.kind = v, errKind(err)
 			}()
 			r.returned = true
@@ -295,8 +318,14 @@ func oracle(e *exec, all bool) []failure {
 		if len(sh) > 1 {
 			add("batch-mixes-shards", "call %d of Many saw args %v", mc.k, mc.args)
 		}
-		if c.MaxSize > 0 && len(mc.args) > c.MaxSize {
-			add("batch-exceeds-maxsize", "call %d of Many saw %d args, MaxSize %d", mc.k, len(mc.args), c.MaxSize)
+		for _, a := range mc.args {
+			if a >= 0 && a < c.Callers && c.funcOf(a) != mc.fid {
+				add("batch-mixes-funcs", "call %d of Func %d's Many saw argument %d, which was passed to Func %d's Invoke (args %v)", mc.k, mc.fid, a, c.funcOf(a), mc.args)
+				break
+			}
+		}
+		if ms := c.maxSizeOf(mc.fid); ms > 0 && len(mc.args) > ms {
+			add("batch-exceeds-maxsize", "call %d of Many saw %d args, MaxSize %d", mc.k, len(mc.args), ms)
 		}
 		if len(mc.args) == 0 {
 			add("many-called-with-no-arguments", "call %d", mc.k)
@@ -458,7 +487,7 @@ func emit(e *exec) ([]string, emitStats) {
 			if woken[g] && !unpub[g] {
 				st.joinsAfterWake++
 			}
-			evs = append(evs, fmt.Sprintf("(LJoin %d %d %v, ObJoin %d %d %v %v)", arg, c.shardOf(arg), !existed && cancelled[arg], g, index, existed, closedNow))
+			evs = append(evs, fmt.Sprintf("(LJoin %d %d %d %v, ObJoin %d %d %v %v)", c.funcOf(arg), arg, c.shardOf(arg), !existed && cancelled[arg], g, index, existed, closedNow))
 		case "batch.wake":
 			g := gid(a[0])
 			cause := map[string]string{"interval": "CInterval", "maxduration": "CMaxDur", "ctxdone": "CCtxDone", "maxsize": "CMaxSize"}[a[1].(string)]
@@ -502,7 +531,7 @@ func emit(e *exec) ([]string, emitStats) {
 				st.nonOk++
 			}
 			final[g] = true
-			evs = append(evs, fmt.Sprintf("(LRun %d %s, ObMany %s)", g, o, natList(mc.args)))
+			evs = append(evs, fmt.Sprintf("(LRun %d %s, ObMany %d %s)", g, o, mc.fid, natList(mc.args)))
 			flush(g)
 		case "batch.cancelled":
 			g := gid(a[0])
@@ -526,6 +555,13 @@ func emit(e *exec) ([]string, emitStats) {
 		flush(g)
 	}
 	return evs, st
+}
+
+func maxi(a, b int) int {
+	if a > b {
+		return a
+	}
+	return b
 }
 
 func mini(a, b int) int {
@@ -582,6 +618,13 @@ func genCase(r *vh.Rng) *Case {
 	}
 	if r.Chance(15) {
 		c.Limit = 1 + r.Intn(4)
+	}
+	if r.Chance(30) {
+		// a second Func on the same batch context; both map arguments to the same shard values
+		c.Funcs, c.MaxSize2 = 2, r.Intn(6)
+		for k := 2 + r.Intn(5); k > 0; k-- {
+			c.FuncOf = append(c.FuncOf, r.Intn(2))
+		}
 	}
 	return c
 }
@@ -648,6 +691,94 @@ func genScript(r *vh.Rng) *Case {
 	return c
 }
 
+// ---- failing-input search: small edits of a case on which model and implementation disagreed ----
+
+var cancelOrder = []string{"start", "batch.join", "batch.wake", "batch.unpublished", "batch.run", "h.many", "batch.done"}
+
+func cloneCase(c *Case) *Case {
+	b, _ := json.Marshal(c)
+	var d Case
+	json.Unmarshal(b, &d)
+	return &d
+}
+
+func variant(r *vh.Rng, seed *Case) *Case {
+	c := cloneCase(seed)
+	c.Origin = "search"
+	c.SchedSeed = r.U64() >> 1
+	for k := 1 + r.Intn(3); k > 0; k-- {
+		switch r.Intn(9) {
+		case 0: // another hold point / count
+			if len(c.Holds) > 0 {
+				h := &c.Holds[r.Intn(len(c.Holds))]
+				switch r.Intn(4) {
+				case 0:
+					h.Point = r.Pick(holdPoints)
+				case 1:
+					h.UntilCount = maxi(1, h.UntilCount+r.Intn(3)-1)
+				case 2:
+					h.Nth = r.Intn(3)
+				default:
+					h.TimeoutUs = 500 + r.Intn(3000)
+				}
+			}
+		case 1: // one more hold
+			c.Holds = append(c.Holds, sched.Hold{Point: r.Pick(holdPoints), Nth: r.Intn(3), UntilPoint: r.Pick([]string{"batch.join", "batch.done", "h.return", "h.invoke"}),
+				UntilCount: 1 + r.Intn(c.Callers), TimeoutUs: 300 + r.Intn(2500)})
+		case 2: // one more caller (arriving last, or together with the first)
+			c.Callers++
+			last := 0
+			if len(c.DelaysUs) > 0 {
+				last = c.DelaysUs[len(c.DelaysUs)-1]
+			}
+			for len(c.DelaysUs) < c.Callers-1 {
+				c.DelaysUs = append(c.DelaysUs, c.DelaysUs[len(c.DelaysUs)%maxi(1, len(seed.DelaysUs))])
+			}
+			c.DelaysUs = append(c.DelaysUs, []int{0, last, last + 200 + r.Intn(600), last + 2500}[r.Intn(4)])
+		case 3: // a cancel moved to a neighbouring event / occurrence / caller
+			if len(c.Cancels) > 0 {
+				cs := &c.Cancels[r.Intn(len(c.Cancels))]
+				switch r.Intn(3) {
+				case 0:
+					for i, p := range cancelOrder {
+						if p == cs.Point {
+							cs.Point = cancelOrder[(i+len(cancelOrder)+[]int{-1, 1}[r.Intn(2)])%len(cancelOrder)]
+							break
+						}
+					}
+				case 1:
+					cs.Nth = maxi(1, cs.Nth+r.Intn(3)-1)
+				default:
+					cs.Caller = (cs.Caller + 1 + r.Intn(2)) % c.Callers
+				}
+			}
+		case 4: // one more cancellation, of an early arrival
+			c.Cancels = append(c.Cancels, Cancel{Caller: r.Intn(mini(c.Callers, 3)), Point: r.Pick(cancelOrder), Nth: 1 + r.Intn(2)})
+		case 5: // arrival jitter
+			for i := range c.DelaysUs {
+				if r.Chance(40) {
+					c.DelaysUs[i] = maxi(0, c.DelaysUs[i]+r.Intn(401)-200)
+				}
+			}
+		case 6: // later arrivals: everyone but the first waits longer
+			for i := range c.DelaysUs {
+				if i > 0 {
+					c.DelaysUs[i] += 300 + r.Intn(1500)
+				}
+			}
+		case 7:
+			c.Perturb = r.Intn(60)
+			if len(c.Outcomes) > 1 {
+				c.Outcomes = append(c.Outcomes[1:], c.Outcomes[0])
+			}
+		default: // timers
+			c.WaitUs = []int{20, 100, 500, 2000}[r.Intn(4)]
+			c.MaxDurUs = []int{300, 1000, 5000}[r.Intn(3)]
+		}
+	}
+	return c
+}
+
 func main() {
 	o := vh.ParseFlags()
 	run := vh.NewRun("C05", o)
@@ -655,7 +786,31 @@ func main() {
 	r := vh.NewRng(o.Seed)
 
 	var cases []*Case
-	if o.Replay != "" {
+	searching := o.Search != ""
+	if searching {
+		var seeds []*Case
+		if b, err := ioutil.ReadFile(o.Search); err == nil {
+			for _, line := range strings.Split(string(b), "\n") {
+				var w struct {
+					Case *Case `json:"case"`
+				}
+				if strings.TrimSpace(line) != "" && json.Unmarshal([]byte(line), &w) == nil && w.Case != nil && w.Case.Callers > 0 {
+					seeds = append(seeds, w.Case)
+				}
+			}
+		}
+		for i := 0; i < o.N; i++ {
+			cr := r.Fork()
+			switch {
+			case len(seeds) > 0:
+				cases = append(cases, variant(cr, seeds[i%len(seeds)]))
+			case cr.Chance(40):
+				cases = append(cases, genScript(cr))
+			default:
+				cases = append(cases, genCase(cr))
+			}
+		}
+	} else if o.Replay != "" {
 		var c Case
 		if vh.ReadReplayCase(o.Replay, &c) {
 			c.Origin = "replay"
@@ -725,6 +880,7 @@ func main() {
 			run.Hist(c.Origin)
 		}
 		run.Hist(fmt.Sprintf("maxsize:%d", c.MaxSize))
+		run.Hist(fmt.Sprintf("funcs:%d", maxi(1, c.Funcs)))
 		run.Hist(fmt.Sprintf("callers:%d0s", c.Callers/10))
 		run.Hist(fmt.Sprintf("groups:%d", mini(st.groups, 12)))
 		run.Hist(fmt.Sprintf("largest-group:%d", mini(st.maxGroup, 12)))
@@ -758,7 +914,13 @@ func main() {
 			}
 			run.Fail(idx, fs[0].sig, det, c)
 		}
-		terms = append(terms, fmt.Sprintf("(%d, mk_case %d %s %v)", idx, c.MaxSize, vh.CoqList(evs), all))
+		if searching {
+			if nFail >= 3 {
+				break // a failing input has been found
+			}
+			continue
+		}
+		terms = append(terms, fmt.Sprintf("(%d, mk_case [%d; %d] %s %v)", idx, c.MaxSize, c.MaxSize2, vh.CoqList(evs), all))
 		if len(terms) >= shard {
 			flush()
 			start = idx + 1
